@@ -45,6 +45,7 @@ type Cfg struct {
 	InheritedCaseCollision bool // with NameStress: a derived service may declare `call` when its base has `Call` (known finding)
 	HelperNames            bool // with NameStress: also names equal to unreserved generated helpers (known finding names-of-generated-helpers)
 	CompatNames            bool // with NameStress: also names that need the compatible_names option (NewX, XArgs, XResult)
+	ArgDefaults            bool // function arguments may carry default values (the grammar allows it)
 	NoZeroThrowsID         bool // no throws entry has id 0 (it would share the id of `success` in the result struct)
 }
 
@@ -54,6 +55,7 @@ type Cfg struct {
 func GoSafe() Cfg {
 	c := Full()
 	c.GoSafe = true
+	c.ArgDefaults = false
 	c.RawCtl = false
 	c.CppStuff = false
 	return c
@@ -63,7 +65,7 @@ func GoSafe() Cfg {
 func Full() Cfg {
 	return Cfg{MaxFiles: 4, MaxDefs: 4, Annotations: true, NastyLits: true, CppStuff: true, Consts: true, Defaults: true,
 		Services: true, NegIDs: true, ExpDoubles: true, HexIDs: true, IntSpell: true, SameBase: true, EnumViaTypedef: true,
-		EnumViaTypedefFar: true, EmptyEnums: true, Comments: true, SelfRef: true, MapStructKey: true, RawCtl: true, UnionDefaults: true}
+		EnumViaTypedefFar: true, ArgDefaults: true, EmptyEnums: true, Comments: true, SelfRef: true, MapStructKey: true, RawCtl: true, UnionDefaults: true}
 }
 
 type gen struct {
@@ -601,7 +603,7 @@ func (g *gen) genFields(kind string) []*Field {
 		} else {
 			f.Type = g.genType(3, false)
 		}
-		if g.cfg.Defaults && (kind == "struct" || kind == "exception" || (kind == "union" && g.cfg.UnionDefaults && !hasDefault)) && g.p(1, 3, "hasdefault") {
+		if g.cfg.Defaults && (kind == "struct" || kind == "exception" || (kind == "union" && g.cfg.UnionDefaults && !hasDefault) || (kind == "args" && g.cfg.ArgDefaults)) && g.p(1, 3, "hasdefault") {
 			f.Default = g.genValue(f.Type, 3)
 			if f.Default != nil {
 				hasDefault = true
